@@ -123,6 +123,376 @@ def diff_class(x, y):
     return ""
 
 
+# ----------------------------------------------------------------------------------------------------------
+# menus made by programs: the handler contract (BaseHandler.getdirlist: "list, iterator, tuple, generator, etc")
+# leaves the container of a listing open; whatever it is, every protocol walks it and shows the same entries
+# ----------------------------------------------------------------------------------------------------------
+PYG_VMENU = """import collections
+import itertools
+from pygopherd import gopherentry
+from pygopherd.handlers.pyg import PYGBase
+from pygopherd.gopherentry import GopherEntry
+
+ITEMS = %(items)r
+KIND = %(kind)r
+MIMES = {"0": "text/plain", "1": "application/gopher-menu", "7": "application/gopher-menu", "9": "application/octet-stream",
+         "h": "text/html", "I": "image/png"}
+
+
+class OneShot:
+    # an iterator in the strict sense: __next__, exhausted after one walk, no len()
+    def __init__(self, xs):
+        self.xs = list(xs)
+        self.i = 0
+
+    def __iter__(self):
+        return self
+
+    def __next__(self):
+        if self.i >= len(self.xs):
+            raise StopIteration
+        self.i += 1
+        return self.xs[self.i - 1]
+
+
+class Again:
+    # an iterable without len() or indexing that may be walked any number of times
+    def __init__(self, xs):
+        self.xs = list(xs)
+
+    def __iter__(self):
+        return iter(list(self.xs))
+
+
+class PYGMain(PYGBase):
+    def canhandlerequest(self):
+        return True
+
+    def isdir(self):
+        return True
+
+    def getentry(self):
+        entry = GopherEntry(self.selector, self.config)
+        entry.type = "1"
+        entry.mimetype = "application/gopher-menu"
+        entry.name = %(title)r
+        if %(abstract)r:
+            entry.ea["ABSTRACT"] = %(abstract)r
+        return entry
+
+    def mk(self, it):
+        typ, name, sel, host, port, abstract = it
+        if typ == "i":
+            return gopherentry.getinfoentry(name, self.config)
+        e = GopherEntry(sel, self.config)
+        e.type = typ
+        e.name = name
+        e.host = host
+        e.port = port
+        e.mimetype = MIMES[typ]
+        if abstract:
+            e.ea["ABSTRACT"] = abstract
+        return e
+
+    def lazily(self):
+        # entries are made one at a time, while the listing is being written
+        for it in ITEMS:
+            yield self.mk(it)
+
+    def getdirlist(self):
+        if KIND == "generator":
+            return self.lazily()
+        es = [self.mk(it) for it in ITEMS]
+        if KIND == "list":
+            return es
+        if KIND == "tuple":
+            return tuple(es)
+        if KIND == "iter":
+            return iter(es)
+        if KIND == "map":
+            return map(self.mk, ITEMS)
+        if KIND == "genexpr":
+            return (e for e in es)
+        if KIND == "oneshot":
+            return OneShot(es)
+        if KIND == "again":
+            return Again(es)
+        if KIND == "chain":
+            return itertools.chain(es[:len(es) // 2], iter(es[len(es) // 2:]))
+        if KIND == "deque":
+            return collections.deque(es)
+        if KIND == "dictvalues":
+            return dict(enumerate(es)).values()
+        if KIND == "filter":
+            return filter(None, es)
+        if KIND == "reversed":
+            return reversed(es[::-1])
+        if KIND == "zip":
+            return (e for (e, _) in zip(es, itertools.count()))
+        raise ValueError(KIND)
+"""
+VMENU_KINDS = ["list", "tuple", "generator", "iter", "map", "genexpr", "oneshot", "again", "chain", "deque", "dictvalues", "filter",
+               "reversed", "zip"]
+VMENU_NAMES = ["alpha", "two words", "a & b <c>", "café", "quote\"d 'name'", "100% [x]", "semi;colon", "trailing dot.", "UPPER lower",
+               "x" * 70, "=> arrow", "# hash", "tab-free"]
+VMENU_LOCAL = ["/a.txt", "/dir1", "/dir1/c.txt", "/sp ace/f.txt", "/find", "/caf\xc3\xa9.txt", "/x?y", "/pct%41", "/d/e/f/g"]
+
+
+def vmenu_items(rng, n):
+    """a listing a program might compose: text lines, documents, menus, search items, items on other servers"""
+    items = []
+    for i in range(n):
+        k = rng.randrange(10)
+        name = rng.choice(VMENU_NAMES) + " %d" % i
+        abstract = rng.choice([None, None, "about %d" % i, "first line %d\nsecond line" % i])
+        if k == 0:
+            items.append(("i", "text line %d %s" % (i, rng.choice(["", "with <markup> & more", "  indented"])), None, None, None, None))
+        elif k in (1, 2, 3):
+            items.append((rng.choice("009I"), name, rng.choice(VMENU_LOCAL), None, None, abstract))
+        elif k in (4, 5):
+            items.append(("1", name, rng.choice(VMENU_LOCAL), None, None, abstract))
+        elif k == 6:
+            items.append(("7", name, rng.choice(VMENU_LOCAL), None, None, abstract))
+        else:
+            host, port = rng.choice(trees.REMOTE_HOSTS)
+            host = "gopher.other.example" if host == "+" else host
+            port = 70 if port == "+" else int(port)
+            items.append((rng.choice("01"), name, rng.choice(["/", "/users/bob", "/a b", "/0/plan", "/abs/path"]), host, port, abstract))
+    return items
+
+
+def run_virtual_menus(chk, tier):
+    """-> (found, number of comparisons).  Oracles: (a) the view of a program-made menu in every protocol and Gopher+
+    request form equals plain Gopher's; (b) the container the program returns is not observable: plain Gopher's view equals
+    the view of the same items returned as a list; (c) that view has at least one entry per item (nothing is vacuous)."""
+    rng = chk.rng
+    found = False
+    nlists = 4 if tier == "thorough" else 2
+    settings = [("always", "on"), ("unsupported", "on"), ("never", "off")]
+    jobs, metas = [], []
+    for li in range(nlists):
+        items = vmenu_items(rng, rng.randrange(5, 12))
+        ae, ah = settings[li % len(settings)]
+        kinds = ["list"] + rng.sample(VMENU_KINDS[1:], len(VMENU_KINDS) - 1)
+        tree = []
+        for kind in kinds:
+            src = PYG_VMENU % {"items": items, "kind": kind, "title": "made by a program",
+                               "abstract": "what this menu is about" if li % 2 == 0 else ""}
+            tree.append({"path": "v/%s.pyg" % kind, "mode": 0o755, "data": src.encode("utf-8").decode("latin-1")})
+        cfg = dict(trees.SITE_CONFIG)
+        cfg["pygopherd"] = {"abstract_entries": ae, "abstract_headers": ah}
+        cfg["handlers.HandlerMultiplexer"] = {"handlers": FULL_HANDLERS}
+        reqs, meta = [], []
+        for kind in kinds:
+            sel = "/v/%s.pyg" % kind
+            for proto in gen.PROTOCOLS:
+                forms = ["+", "$", "$+ABSTRACT"] if proto == "gopherplus" else ["+", "$"] if proto == "sgopherplus" else [None]
+                for form in forms:
+                    data, tls = gen.request_bytes(proto, sel, gplus=form or "+")
+                    reqs.append({"data": gen.lat(data), "tls": tls})
+                    meta.append((kind, proto, form))
+        jobs.append({"op": "world", "tree": tree, "config": cfg, "requests": reqs})
+        metas.append((items, ae, meta, tree))
+    res = impl_run_parallel(jobs, chunks=len(jobs))
+    ncmp = 0
+    nrep = {}
+    for li, (r, (items, ae, meta, tree)) in enumerate(zip(res, metas)):
+        if not r["ok"]:
+            raise RuntimeError(r["err"] + r.get("tb", ""))
+        views = {}
+        for (kind, proto, form), o in zip(meta, r["res"]["results"]):
+            out = o["out"].encode("latin-1")
+            try:
+                v = pgsite.view_gplus_dir(proto, out) if form and form.startswith("$") else pgsite.view_page(proto, out)
+            except (V.Malformed, KeyError) as e:
+                v = "unreadable: %s" % e
+            views[(kind, proto, form)] = (v, o)
+        listview = views[("list", "gopher", None)][0]
+        for (kind, proto, form), (v, o) in views.items():
+            ncmp += 1
+            chk.count(("vmenu", li, kind, proto, form), nontrivial=True)
+            ref = views[(kind, "gopher", None)][0]
+            which = proto + (":" + ("$+" if len(form) > 1 else form) if form and form != "+" else "")
+            base = {"selector": "/v/%s.pyg" % kind, "container_returned_by_getdirlist": kind, "protocol": proto, "gopherplus_form": form,
+                    "abstract_entries": ae, "items": [list(x) for x in items], "handlers": FULL_HANDLERS, "tree": tree,
+                    "request_latin1": gen.lat(gen.request_bytes(proto, "/v/%s.pyg" % kind, gplus=form or "+")[0]),
+                    "response_head_latin1": o["out"][:400]}
+            if proto == "gopher":
+                a, b = listview, v
+                if isinstance(b, str) or len(b) < len(items):
+                    found = True
+                    chk.violation(dict(base, what="a menu made by a program does not show all its entries in plain Gopher",
+                                       entries_expected_at_least=len(items), entries_shown=None if isinstance(b, str) else len(b)),
+                                  tag="virtual-menu-incomplete:gopher")
+                elif a != b:
+                    found = True
+                    chk.violation(dict(base, what="the same entries show differently when getdirlist() returns another kind of "
+                                                  "iterable", view_as_list=repr(a)[:600], view=repr(b)[:600]),
+                                  tag="virtual-menu-container-observable:gopher")
+                continue
+            if isinstance(v, str):
+                found = True
+                chk.violation(dict(base, what="menu made by a program not readable in this protocol: " + v),
+                              tag=f"unreadable-listing:{which}:virtual")
+                continue
+            if isinstance(ref, str):
+                continue
+            a, b = ref, v
+            if ae == "unsupported" and proto in ("gopherplus", "sgopherplus"):
+                a = [x for x in a if x[0] != "info"]
+                b = [x for x in b if x[0] != "info"]
+            if a != b:
+                found = True
+                nrep[which] = nrep.get(which, 0) + 1
+                if nrep[which] > 2:
+                    continue
+                k = next((i for i in range(min(len(a), len(b))) if a[i] != b[i]), min(len(a), len(b)))
+                chk.violation(dict(base, what="a menu made by a program shows different entries in two protocols", protocol_a="gopher",
+                                   protocol_b=proto, entries_a=len(a), entries_b=len(b), first_difference_index=k,
+                                   entry_a=repr(a[k]) if k < len(a) else None, entry_b=repr(b[k]) if k < len(b) else None),
+                              tag=f"listing-differs:{which}:virtual" + ("" if kind in ("list", "tuple", "deque", "again", "dictvalues")
+                                                                         else ":one-shot-iterator"))
+    return found, ncmp
+
+
+# ----------------------------------------------------------------------------------------------------------
+# executable content: what a script answers depends on the process it runs in (working directory, arguments,
+# environment, standard input); the same selector + search string gives the same text through every protocol,
+# whether the script writes straight to the connection's descriptor or its output is captured and copied
+# ----------------------------------------------------------------------------------------------------------
+# every script reports facts as NAME=value records; the records travel as ONE hexadecimal word (FACTS=<hex>;), which every
+# protocol's rendering of a text document leaves alone
+SH_HEAD = "#!/bin/sh\nrec() { printf '%s=%s\\0' \"$1\" \"$2\"; }\n{\n"
+SH_TAIL = "} | od -An -v -tx1 | tr -d ' \\n' | { printf 'FACTS='; cat; printf ';\\n'; }\n"
+SH_CWD = SH_HEAD + ("rec CWD \"$(pwd)\"\nrec PHYS \"$(pwd -P)\"\n"
+                    "if [ -r data.txt ]; then rec SIB \"$(cat data.txt)\"; else rec SIB '<no data.txt here>'; fi\n"
+                    "if [ -r ./sub/more.txt ]; then rec SUB \"$(cat ./sub/more.txt)\"; else rec SUB '<none>'; fi\n"
+                    "rec UP \"$(cd .. && pwd)\"\nrec LS \"$(ls -a | head -30)\"\nrec UMASK \"$(umask)\"\nrec Q \"${SEARCHREQUEST-<unset>}\"\n") + SH_TAIL
+SH_ARGV = SH_HEAD + "rec ARGC \"$#\"\nrec ARG0 \"$0\"\nfor a in \"$@\"; do rec ARG \"$a\"; done\nrec Q \"${SEARCHREQUEST-<unset>}\"\n" + SH_TAIL
+# (the environment is reported as the names of all variables, the values of those a script may rely on and a checksum
+# of all the rest: replays never hold the values of unrelated variables of the machine the check runs on)
+SH_ENV = SH_HEAD + ("rec NAMES \"$(awk 'BEGIN{for(k in ENVIRON) print k}' | grep -v '^_$' | LC_ALL=C sort | tr '\\n' ' ')\"\n"
+                    "rec ENVSUM \"$(env | grep -v '^REMOTE_' | grep -v '^_=' | LC_ALL=C sort | cksum)\"\n"
+                    "for v in SERVER_NAME SERVER_PORT SELECTOR REQUEST SEARCHREQUEST PWD OLDPWD PATH HOME LANG LC_ALL TZ TMPDIR "
+                    "QUERY_STRING GATEWAY_INTERFACE; do eval \"rec \\\"V_$v\\\" \\\"\\${$v-<unset>}\\\"\"; done\n"
+                    "rec RADDR \"$REMOTE_ADDR\"\nrec RHOST \"$REMOTE_HOST\"\nrec RPORT \"$REMOTE_PORT\"\n") + SH_TAIL
+SH_IO = ("#!/bin/sh\necho 'BEFORE=6f7574;'\necho 'ERR=7374646572723f;' >&2\n" + SH_HEAD[len("#!/bin/sh\n"):] +
+         "rec IN \"$(timeout 3 cat)\"\nrec INKIND \"$(if [ -t 0 ]; then echo tty; else echo no-tty; fi)\"\n" + SH_TAIL +
+         "echo 'ERR=7374646572723f;' >&2\necho 'AFTER=6f7574;'\nexit 3\n")
+SH_BIG = ("#!/bin/sh\necho 'FIRST=78;'\n"
+          "awk 'BEGIN{for(i=0;i<3000;i++) printf \"L=%08x%s;\\n\", i, \"0123456789abcdef0123456789abcdef0123456789abcdef\"}'\n"
+          "echo 'LAST=78;'\n")
+
+
+def script_tokens(out):
+    toks = []
+    for k, v in re.findall(rb"\b([A-Z][A-Z0-9]*)=([0-9a-f]*);", out):
+        if k == b"FACTS":
+            for rec_ in bytes.fromhex(v.decode()).split(b"\0"):
+                if rec_:
+                    name, _, val = rec_.partition(b"=")
+                    toks.append((name.decode("latin-1"), val.hex()))
+        else:
+            toks.append((k.decode(), v.decode()))
+    return toks
+
+
+def run_scripts(chk, tier):
+    """-> (found, number of answers compared)"""
+    found = False
+    rng = chk.rng
+    stree = []
+    for d, what in (("", "top"), ("bin/", "bin"), ("sp ace/deep/", "deep")):
+        stree.append({"path": d + "where.sh", "data": SH_CWD, "mode": 0o755})
+        stree.append({"path": d + "data.txt", "data": "data next to the script in %s\n" % what})
+    stree += [{"path": "bin/sub/more.txt", "data": "more below bin\n"},
+              {"path": "bin/args.sh", "data": SH_ARGV, "mode": 0o755}, {"path": "bin/env.sh", "data": SH_ENV, "mode": 0o755},
+              {"path": "bin/io.sh", "data": SH_IO, "mode": 0o755}, {"path": "bin/big.sh", "data": SH_BIG, "mode": 0o755}]
+    outside = [{"path": "data.txt", "data": "data in the directory above the root\n"}, {"path": "sub/more.txt", "data": "more above the root\n"}]
+    cfg = dict(trees.SITE_CONFIG)
+    cfg["handlers.HandlerMultiplexer"] = {"handlers": FULL_HANDLERS}
+    word = "".join(rng.choice("abcdefghijklmnopqrstuvwxyz") for _ in range(rng.randrange(3, 9)))
+    targets = [("/where.sh", None), ("/where.sh", word), ("/bin/where.sh", None), ("/bin/where.sh", word),
+               ("/sp ace/deep/where.sh", "two words"), ("/bin/args.sh", None), ("/bin/args.sh?one two", word),
+               ("/bin/args.sh|" + word, None), ("/bin/args.sh?-n --flag=" + word + " x", "café " + word),
+               ("/bin/env.sh", None), ("/bin/env.sh", word), ("/bin/env.sh?arg", "a&b=c " + word),
+               ("/bin/io.sh", None), ("/bin/io.sh", word), ("/bin/big.sh", None)]
+    live_targets = {0, 3, 4, 6, 10, 13, 14}
+    direct = ("gopher", "gopherplus", "http", "spartan")   # plain TCP and no conversion: a script may be handed the descriptor
+    reqs, meta = [], []
+    for ti, (sel, q) in enumerate(targets):
+        for proto in gen.PROTOCOLS:
+            for tr in ("fd", "mem", "live"):
+                if tr == "mem" and (proto not in direct or (ti % 2 and proto not in ("gopher", "http"))):
+                    continue    # without a descriptor these are served exactly as over "fd"
+                if tr == "live" and ti not in live_targets:
+                    continue
+                data, tls = gen.request_bytes(proto, sel, search=q)
+                reqs.append({"data": gen.lat(data), "tls": tls, "transport": tr})
+                meta.append((ti, proto, tr))
+    cwds = ["parent", "root", "bin"] if tier == "thorough" else ["parent", "bin"]
+    jobs, jmeta = [], []
+    nsplit = 2
+    for cwd in cwds:
+        for part in range(nsplit):
+            # (everything asked of one target is served by one world: absolute paths are comparable)
+            # (under the further directories only the scripts that look around themselves)
+            idx = [i for i, m_ in enumerate(meta) if m_[0] % nsplit == part and (cwd == cwds[0] or targets[m_[0]][0].endswith("where.sh"))]
+            jobs.append({"op": "c06_transports", "tree": stree, "outside": outside, "config": cfg, "cwd": cwd,
+                         "requests": [reqs[i] for i in idx]})
+            jmeta.append((cwd, [meta[i] for i in idx], [reqs[i] for i in idx]))
+    res = impl_run_parallel(jobs, chunks=len(jobs))
+    answers = {}
+    for r, (cwd, m, rq) in zip(res, jmeta):
+        if not r["ok"]:
+            raise RuntimeError(r["err"] + r.get("tb", ""))
+        for (ti, proto, tr), q_, o in zip(m, rq, r["res"]["results"]):
+            answers[(cwd, ti, proto, tr)] = (script_tokens(o["out"].encode("latin-1")), q_, o)
+    n = 0
+    nrep = {}
+    for (cwd, ti, proto, tr), (toks, rq, o) in sorted(answers.items()):
+        sel, q = targets[ti]
+        ref = answers.get((cwd, ti, "gopher", "fd"))
+        n += 1
+        chk.count(("script", cwd, ti, proto, tr), nontrivial=True)
+        if ref is None:
+            continue
+        rtoks = ref[0]
+
+        def facts(ts, transport):
+            out = []
+            for k, v in ts:
+                if k == "RPORT" and transport == "live":
+                    continue       # every connection has its own port
+                out.append((k, v))
+            return out
+        a, b = facts(rtoks, tr), facts(toks, tr)
+        if tr != "fd":
+            # the client of the reference answer sat at another address
+            a = [x for x in a if x[0] not in ("RADDR", "RHOST", "RPORT")]
+            b = [x for x in b if x[0] not in ("RADDR", "RHOST", "RPORT")]
+        if not rtoks or a != b:
+            found = True
+            k = next((i for i in range(min(len(a), len(b))) if a[i] != b[i]), min(len(a), len(b)))
+            key = (a[k][0] if k < len(a) else b[k][0]) if (a or b) else "no-answer"
+            nrep[(proto, tr)] = nrep.get((proto, tr), 0) + 1
+            if nrep[(proto, tr)] > 1 or len(nrep) > 8:
+                continue     # one replay per protocol and delivery, eight in all
+
+            def show(t):
+                return None if t is None else [t[0], bytes.fromhex(t[1]).decode("latin-1")[:300]]
+            chk.violation({"what": "a script answers the same selector and search string differently depending on the protocol "
+                                   "(or on how the connection delivers its output)", "selector": sel, "search": q,
+                           "protocol_a": "gopher", "delivery_a": "fd", "protocol_b": proto, "delivery_b": tr,
+                           "deliveries": "fd = the output file is a real descriptor; mem = in-memory output file; live = real server, real sockets",
+                           "daemon_working_directory": cwd, "first_differing_fact": key,
+                           "fact_a": show(a[k]) if k < len(a) else None, "fact_b": show(b[k]) if k < len(b) else None,
+                           "request_latin1": rq["data"], "response_head_latin1": o["out"][:400], "client_error": o.get("exc"),
+                           "handlers": FULL_HANDLERS, "tree": stree, "outside": outside},
+                          tag=f"script-answer-differs:{proto}:{tr}:{key}")
+    return found, n
+
+
 def run(tier):
     chk = Check("C06", tier)
     chk.proofs(extra_files=["Corr/K06.v"])  # K: Corr file of this property
@@ -647,6 +1017,12 @@ def run(tier):
                                "client_error": o["exc"], "response_latin1": o["out"][:300]},
                               tag=f"query-differs-split:{proto}:{'whole' if mode == 'whole' else 'pieces'}")
 
+    # ---- menus made by programs (any iterable) and executable content (process environment, both delivery paths) ----
+    f_, nvmenu = run_virtual_menus(chk, tier)
+    found = found or f_
+    f_, nscript = run_scripts(chk, tier)
+    found = found or f_
+
     # Gemini's two-step input dance: prompt, then redirect to selector?query
     greqs = [{"data": gen.lat(b"gemini://gopher.example/GEMINI-QUERY/echo.pyg\r\n"), "tls": True},
              {"data": gen.lat(b"gemini://gopher.example/GEMINI-QUERY/echo.pyg?a%20b%AE\r\n"), "tls": True}]
@@ -660,7 +1036,8 @@ def run(tier):
     chk.sample({"kind": "query", "protocol": meta[3][0], "query": meta[3][2]})
     chk.coverage["oracle"] = {"trees": ntrees, "directory_pages": ndirs, "documents": ndocs, "trailing_slash_pairs": nslash,
                               "query_submissions": nq, "no_query_requests": nnone, "search_flow_submissions": nflow,
-                              "gopherplus_request_forms": nforms, "gopherplus_item_descriptors": nbang, "live_socket_query_submissions": nlive}
+                              "gopherplus_request_forms": nforms, "gopherplus_item_descriptors": nbang, "live_socket_query_submissions": nlive,
+                              "program_made_menu_views": nvmenu, "script_answers": nscript}
     chk.coverage["rule"] = ("every directory of each generated tree viewed through all 9 protocol variants, canonical (kind,name,target) "
                             "sequences compared with plain Gopher's; MIME type and body of every document compared across protocols; "
                             "the Gopher+ view taken in every request form (+, $, $ with attribute lists) and the item descriptor (!) of "
@@ -670,7 +1047,14 @@ def run(tier):
                             "metacharacters) submitted through each protocol's own mechanism to a PYG and a CGI echo handler, in-process and over "
                             "real sockets (also with no query at all: absent everywhere; and search items with URL-significant characters followed from "
                             "each protocol's listing through its own submission mechanism, Gemini's prompt/redirect flow included) to the real ThreadingTCPServer with the request delivered whole, cut in two or three, cut after "
-                            "the request line, cut inside what follows it, and byte by byte")
+                            "the request line, cut inside what follows it, and byte by byte; menus made by programs (.pyg) whose "
+                            "getdirlist() returns each kind of iterable the handler contract allows (list, tuple, deque, generator, iterator, "
+                            "map/filter/chain objects, one-shot and re-iterable classes without len) viewed through all 9 variants and the "
+                            "Gopher+ forms, compared with plain Gopher's view and with the view of the same items as a list; scripts "
+                            "(ExecHandler) reporting their working directory, files beside them by relative name, arguments, environment, "
+                            "standard input, standard error, exit status and 180 KB of output, asked for through all 9 variants with the "
+                            "output file in memory, on a real descriptor and over the live server (real TCP/TLS), with the daemon "
+                            "standing in different directories: the reported facts are the same for the same selector + search string")
     # ---- K: the Coq renderers / readers against the real code (harness/k06.py) ----
     kmism, kerr, kdetails = run_k06(chk, tier)
     found = found or bool(kdetails.get("oracle_hits"))  # run_k06 carries two implementation-level rules of its own
